@@ -1270,6 +1270,14 @@ func runFaults(c *engine.Ctx) engine.Result {
 		r.Set("observations_without_violated_clause", agg.notes)
 		agg.mu.Unlock()
 	}
+	if c.Replay != nil && strings.Contains(string(c.Replay), `"full-disk"`) {
+		var fd struct {
+			Seq int `json:"seq"`
+		}
+		_ = json.Unmarshal(c.Replay, &fd)
+		runFaultsFullDisk(c, fd.Seq)
+		return res
+	}
 	if c.Replay != nil {
 		var cs ftCase
 		if err := json.Unmarshal(c.Replay, &cs); err != nil {
@@ -1393,6 +1401,9 @@ func runFaults(c *engine.Ctx) engine.Result {
 		r.Sample(second[len(second)/2])
 	}
 	engine.ForEach(len(second), engine.Workers(), func(i int) { ftRunCase(c, agg, second[i]) })
+	for i := 0; i < c.Pick(3, 12); i++ {
+		runFaultsFullDisk(c, i)
+	}
 	finish()
 
 	for _, fl := range ftFlows {
